@@ -43,6 +43,7 @@ def run(ctx, chk):
     r6(ctx, chk, "C08.R6")
     r7(ctx, chk, "C08.R7")
     token_conservation_rule(ctx, chk, "C08.R8")
+    nospace_period_rule(ctx, chk, "C08.R9")
 
 
 def r7(ctx, chk, rule):
@@ -496,3 +497,58 @@ def _block_of(fn, node):
                     if not isinstance(st, (ast.If, ast.For, ast.While, ast.Try, ast.With, ast.FunctionDef)) and any(x is node for x in ast.walk(st)):
                         best = blk
     return best
+
+
+
+def nospace_period_rule(ctx, chk, rule):
+    """the no-spaces parser reports the period from the format that matched: 'day' when the format has a day (or any clock) directive,
+    'month' when it has a month but no day, 'year' otherwise.  The table is scanned in sorted key order and the first hit wins, so the
+    finer part must come first in that order and no directive may sit under the wrong part."""
+    NS = ctx.ix.cls("dateparser.parser:_no_spaces_parser")
+    lit = NS.attrs.get("period")
+    try:
+        table = ast.literal_eval(lit)
+    except Exception:
+        raise AnalysisError(rule, "_no_spaces_parser.period is not a literal")
+    f = ctx.ix.func("dateparser.parser:_no_spaces_parser._get_period")
+    fmtp = f.params()[1]
+    loops = [n for n in iter_own_nodes(f.node) if isinstance(n, ast.For)]
+    if not loops:
+        raise AnalysisError(rule, "_get_period: loop over the period table not found")
+    outer = loops[0]
+    it = outer.iter
+    order = list(table)
+    if isinstance(it, ast.Call) and ast.unparse(it.func) == "sorted":
+        kw = {k.arg: k.value for k in it.keywords}
+        rev = kw.get("reverse")
+        keyf = kw.get("key")
+        by_name = keyf is None or (isinstance(keyf, ast.Lambda) and ast.unparse(keyf.body) in ("%s[0]" % keyf.args.args[0].arg, keyf.args.args[0].arg))
+        if not by_name:
+            raise AnalysisError(rule, "_get_period: unknown sort key %s" % ast.unparse(keyf))
+        order = sorted(table, reverse=bool(rev is not None and isinstance(rev, ast.Constant) and rev.value))
+    elif "period" not in ast.unparse(it):
+        raise AnalysisError(rule, "_get_period iterates %s" % ast.unparse(it))
+    fine = {"day": 0, "month": 1, "year": 2}
+    chk.ob(rule, "_no_spaces_parser._get_period tries the finer period first (%s)" % order,
+           all(k in fine for k in order) and [fine[k] for k in order] == sorted(fine[k] for k in order),
+           "scan order %s: a format with a month and a day is reported as the coarser period" % order,
+           key={"function": f.key, "construct": "scan order"}, file=f.file, function=f.qual, line=outer.lineno)
+    want = {"%d": "day", "%m": "month"}
+    for drv, part in want.items():
+        homes = [k for k, v in table.items() if drv in v]
+        chk.ob(rule, "directive %s stands for the %s period only" % (drv, part), homes == [part], "listed under %s" % homes,
+               key={"function": f.key, "construct": "directive " + drv}, file=f.file, function="_no_spaces_parser.period", line=None)
+    stray = sorted(d for v in table.values() for d in v if d in ("%Y", "%y"))
+    chk.ob(rule, "no year directive is listed under a finer period", not stray, "%s listed" % stray,
+           key={"function": f.key, "construct": "year directives"}, file=f.file, function="_no_spaces_parser.period", line=None)
+    body = ast.Module(body=outer.body, type_ignores=[])
+    hit = [n for n in ast.walk(body) if isinstance(n, ast.Return)]
+    tests = [n for n in ast.walk(body) if isinstance(n, ast.If)]
+    tgt = outer.target.elts[0].id if isinstance(outer.target, ast.Tuple) and isinstance(outer.target.elts[0], ast.Name) else None
+    ok = len(hit) == 1 and len(tests) == 1 and isinstance(hit[0].value, ast.Name) and hit[0].value.id == tgt \
+        and isinstance(tests[0].test, ast.Compare) and isinstance(tests[0].test.ops[0], ast.In) and ast.unparse(tests[0].test.comparators[0]) == fmtp
+    chk.ob(rule, "a directive found in the format returns the name of its table row", ok, "", key={"function": f.key, "construct": "hit returns row"},
+           file=f.file, function=f.qual, line=outer.lineno)
+    rest = [n for n in iter_own_nodes(f.node) if isinstance(n, ast.Return) and n not in hit]
+    chk.ob(rule, "a format without day and month directives has period 'year'", len(rest) == 1 and isinstance(rest[0].value, ast.Constant) and rest[0].value.value == "year",
+           "", key={"function": f.key, "construct": "fallback year"}, file=f.file, function=f.qual, line=f.node.lineno)
